@@ -446,7 +446,7 @@ Proof. intros H; induction H; intros I; [exact I|]. apply IHeffs. eapply eff_pre
 
 Ltac simpl_abs :=
   unfold abs, upstream, inq_ids, wait_ids, cur_ids, finish_call, ids;
-  cbn [next_id sendq cur wire inq waiting evq trace lost dropped].
+  cbn [next_id sendq cur wire inq waiting evq trace lost dropped early cut].
 
 Lemma pump_abs f s : abs (pump f s) = abs s.
 Proof.
@@ -461,7 +461,7 @@ Qed.
 Lemma issue_eff st f s : eff (abs s) (abs (issue st f s)).
 Proof.
   unfold issue. rewrite sendq_put.
-  set (s1 := mk (S (next_id s)) _ _ _ _ _ _ _ _ _).
+  set (s1 := mk (S (next_id s)) _ _ _ _ _ _ _ _ _ _ _).
   assert (E : abs s1 = amk (S (next_id s)) (wait_ids s) (ids (dropped s)) (inq_ids s) (upstream s ++ [next_id s]) (trace s) (lost s)).
   { subst s1. simpl_abs. f_equal. rewrite map_app. cbn [map cid]. rewrite !app_assoc. reflexivity. }
   match goal with |- context [if ?b then _ else _] => destruct b end; rewrite ?pump_abs, E; apply E_issue.
@@ -477,7 +477,7 @@ Qed.
 
 Lemma deliver_eff s : eff (abs s) (abs (deliver s)).
 Proof.
-  unfold deliver. destruct (lost s) eqn:El; [apply E_none|].
+  unfold deliver. destruct (lost s) eqn:El; [apply E_none|]. destruct (negb (in_flight s)); [apply E_none|].
   destruct (wire s) as [|c w] eqn:Ew; [apply E_none|].
   assert (Eu : upstream s = cid c :: (ids w ++ cur_ids s ++ ids (sendq s))).
   { unfold upstream. rewrite Ew. reflexivity. }
@@ -516,9 +516,9 @@ Proof. intros Hg. rewrite map_map. apply map_ext. exact Hg. Qed.
 
 Definition sw_part (s : state) := (cur s, sendq s, wire s).
 
-Lemma gift_ready_eff k ok s : AInv (abs s) -> eff (abs s) (abs (gift_ready k ok s)).
+Lemma gift_ready_eff a k ok s : AInv (abs s) -> eff (abs s) (abs (gift_ready_gen a k ok s)).
 Proof.
-  intros I. unfold gift_ready. set (ok' := ok && _).
+  intros I. unfold gift_ready_gen. set (ok' := ok && _).
   assert (Hmap : forall l : list (call * rdy),
             map fst (map (fun e => if cid (fst e) =? k then (fst e, step_rdy ok' (snd e)) else e) l) = map fst l).
   { intros l. apply inq_ids_map. intros e. destruct (cid (fst e) =? k); reflexivity. }
@@ -532,12 +532,23 @@ Proof.
 Qed.
 
 (* what gift_ready leaves alone *)
-Lemma gift_ready_parts k ok s :
-  next_id (gift_ready k ok s) = next_id s /\ sw_part (gift_ready k ok s) = sw_part s /\ lost (gift_ready k ok s) = lost s.
+Lemma gift_ready_parts a k ok s :
+  next_id (gift_ready_gen a k ok s) = next_id s /\ sw_part (gift_ready_gen a k ok s) = sw_part s /\
+  lost (gift_ready_gen a k ok s) = lost s /\ cut (gift_ready_gen a k ok s) = cut s.
 Proof.
-  unfold gift_ready. destruct (find _ (waiting s)) as [[c g]|]; [|repeat split].
+  unfold gift_ready_gen. destruct (find _ (waiting s)) as [[c g]|]; [|repeat split].
   destruct (g_out _); repeat split.
 Qed.
+
+Lemma early_gift_parts k ok s :
+  abs (early_gift k ok s) = abs s /\ sw_part (early_gift k ok s) = sw_part s /\ lost (early_gift k ok s) = lost s /\
+  cut (early_gift k ok s) = cut s /\ (inq (early_gift k ok s), waiting (early_gift k ok s), evq (early_gift k ok s)) = (inq s, waiting s, evq s).
+Proof. unfold early_gift. destruct (existsb _ _); repeat split. Qed.
+
+Lemma sender_lost_parts s :
+  abs (sender_lost s) = abs s /\ sw_part (sender_lost s) = sw_part s /\ lost (sender_lost s) = lost s /\
+  (inq (sender_lost s), waiting (sender_lost s), evq (sender_lost s)) = (inq s, waiting s, evq s).
+Proof. unfold sender_lost. destruct (cut s); repeat split. Qed.
 
 Lemma disconnect_eff s : eff (abs s) (abs (disconnect s)).
 Proof.
@@ -556,7 +567,7 @@ Proof.
 Qed.
 
 Lemma turn_effs s : AInv (abs s) -> effs (abs s) (abs (turn s)).
-Proof. intros I. unfold turn. apply (thunks_effs _ (mk _ _ _ _ _ _ [] _ _ _)). exact I. Qed.
+Proof. intros I. unfold turn. apply (thunks_effs _ (mk _ _ _ _ _ _ [] _ _ _ _ _)). exact I. Qed.
 
 Lemma step_effs s o : AInv (abs s) -> effs (abs s) (abs (step s o)).
 Proof.
@@ -567,6 +578,9 @@ Proof.
   - apply effs_one, gift_ready_eff; exact I.
   - apply turn_effs; exact I.
   - apply effs_one, disconnect_eff.
+  - destruct (early_gift_parts k ok s) as (-> & _). apply effs_refl.
+  - destruct (sender_lost_parts s) as (-> & _). apply effs_refl.
+  - apply effs_one, gift_ready_eff; exact I.
 Qed.
 
 Lemma run_from_inv ops : forall s, AInv (abs s) -> AInv (abs (fold_left step ops s)).
@@ -577,6 +591,9 @@ Qed.
 
 Lemma run_inv ops : AInv (abs (run ops)).
 Proof. apply run_from_inv. apply AInv_init. Qed.
+
+Lemma run_app_one ops o : run (ops ++ [o]) = step (run ops) o.
+Proof. unfold run. rewrite fold_left_app. reflexivity. Qed.
 
 (* ------------------------------------------------------------------ *)
 (* the theorems *)
@@ -668,10 +685,13 @@ Proof.
   - unfold issue. match goal with |- context [if ?b then _ else _] => destruct b end;
       rewrite ?pump_next; cbn [next_id]; lia.
   - pose proof (release_abs s) as H. apply (f_equal a_next) in H. cbn [abs a_next] in H. lia.
-  - unfold deliver. destruct (lost s); [lia|]. destruct (wire s); [lia|]. destruct (cfate c); cbn [next_id]; lia.
-  - destruct (gift_ready_parts k ok s) as (-> & _). lia.
+  - unfold deliver. destruct (lost s); [lia|]. destruct (negb (in_flight s)); [lia|]. destruct (wire s); [lia|]. destruct (cfate c); cbn [next_id]; lia.
+  - destruct (gift_ready_parts true k ok s) as (E & _). unfold gift_ready. rewrite E. lia.
   - unfold turn. rewrite thunks_next. cbn [next_id]. lia.
   - unfold disconnect. destruct (lost s); [lia|]. destruct finish_clears_inq; cbn [next_id]; lia.
+  - destruct (early_gift_parts k ok s) as (E & _). apply (f_equal a_next) in E. cbn [abs a_next] in E. lia.
+  - destruct (sender_lost_parts s) as (E & _). apply (f_equal a_next) in E. cbn [abs a_next] in E. lia.
+  - destruct (gift_ready_parts false k ok s) as (E & _). rewrite E. lia.
 Qed.
 
 Lemma count_issues_cons o ops :
@@ -737,7 +757,7 @@ Qed.
 Lemma sender_of_sw s s' : sw_part s' = sw_part s -> sender_part s' = sender_part s.
 Proof. unfold sw_part, sender_part. intros E. inversion E. reflexivity. Qed.
 
-Lemma gift_ready_sw k ok s : sw_part (gift_ready k ok s) = sw_part s.
+Lemma gift_ready_sw a k ok s : sw_part (gift_ready_gen a k ok s) = sw_part s.
 Proof. apply gift_ready_parts. Qed.
 
 Lemma disconnect_sw s : sw_part (disconnect s) = sw_part s.
@@ -751,11 +771,14 @@ Proof.
   intros I. destruct o; cbn [step].
   - apply issue_sinv; exact I.
   - apply release_sinv; exact I.
-  - apply (sinv_of_sender s); [|exact I]. unfold deliver. destruct (lost s); [reflexivity|].
+  - apply (sinv_of_sender s); [|exact I]. unfold deliver. destruct (lost s); [reflexivity|]. destruct (negb (in_flight s)); [reflexivity|].
     destruct (wire s); [reflexivity|]. destruct (cfate c); reflexivity.
   - apply (sinv_of_sender s); [|exact I]. apply sender_of_sw, gift_ready_sw.
   - apply (sinv_of_sender s); [|exact I]. unfold turn. rewrite thunks_sender. reflexivity.
   - apply (sinv_of_sender s); [|exact I]. apply sender_of_sw, disconnect_sw.
+  - apply (sinv_of_sender s); [|exact I]. apply sender_of_sw, early_gift_parts.
+  - apply (sinv_of_sender s); [|exact I]. apply sender_of_sw, sender_lost_parts.
+  - apply (sinv_of_sender s); [|exact I]. apply sender_of_sw, gift_ready_sw.
 Qed.
 
 Lemma run_from_sinv ops : forall s, SInv s -> SInv (fold_left step ops s).
@@ -776,7 +799,7 @@ Lemma turn_enters_ready_head s c rest :
 Proof.
   intros El Ew Ei Ev Hl. unfold turn. destruct evq_is_fifo as [_ ->].
   destruct (evq s) as [|t b]; [congruence|]. destruct t. cbn [fold_left run_thunk].
-  set (s0 := mk _ _ _ _ _ _ _ _ _ _).
+  set (s0 := mk _ _ _ _ _ _ _ _ _ _ _ _).
   assert (E : In (cid c) (entered (do_next s0))).
   { unfold do_next, blocked. rewrite hol_is_blocking. subst s0. cbn [waiting inq lost]. rewrite Ew, El, andb_false_r. cbn [is_nil negb].
     rewrite inq_take, Ei. unfold finish_call, entered. cbn [trace]. rewrite Hl. cbn [andb negb entered_of].
@@ -828,9 +851,9 @@ Proof.
   destruct t; cbn [run_thunk]. apply do_next_rinv.
 Qed.
 
-Lemma gift_ready_rinv k ok s : RInv s -> RInv (gift_ready k ok s).
+Lemma gift_ready_rinv a k ok s : RInv s -> RInv (gift_ready_gen a k ok s).
 Proof.
-  intros I. unfold gift_ready. destruct (find _ (waiting s)) as [[c g]|] eqn:Ef.
+  intros I. unfold gift_ready_gen. destruct (find _ (waiting s)) as [[c g]|] eqn:Ef.
   - destruct (g_out _).
     + intros _ _ _. unfold finish_call. cbn [evq]. apply evq_put_nonempty.
     + unfold RInv. cbn [inq waiting evq lost]. intros _ _ H2. apply map_eq_nil in H2. rewrite H2 in Ef. discriminate Ef.
@@ -845,7 +868,7 @@ Proof.
     match goal with |- context [if ?b then _ else _] => destruct b end; rewrite ?pump_receiver; reflexivity.
   - apply (rinv_of_receiver s); [|exact I]. unfold release.
     destruct (cur s) as [[c [|[|m]]]|]; rewrite ?pump_receiver; reflexivity.
-  - unfold deliver. destruct (lost s) eqn:El; [exact I|]. destruct (wire s) as [|c w]; [exact I|].
+  - unfold deliver. destruct (lost s) eqn:El; [exact I|]. destruct (negb (in_flight s)); [exact I|]. destruct (wire s) as [|c w]; [exact I|].
     destruct (cfate c); try (intros _ _ _; cbn [evq]; apply evq_put_nonempty).
     apply (rinv_of_receiver s); [unfold receiver_part; cbn [inq waiting evq lost]; rewrite El; reflexivity | exact I].
   - apply gift_ready_rinv; exact I.
@@ -855,6 +878,11 @@ Proof.
     + apply thunks_rinv. discriminate.
   - unfold disconnect. destruct (lost s) eqn:El; [exact I|].
     destruct finish_clears_inq; intros H; cbn [lost] in H; discriminate H.
+  - apply (rinv_of_receiver s); [|exact I]. destruct (early_gift_parts k ok s) as (_ & _ & El & _ & E).
+    unfold receiver_part. inversion E as [[E1 E2 E3]]. rewrite E1, E2, E3, El. reflexivity.
+  - apply (rinv_of_receiver s); [|exact I]. destruct (sender_lost_parts s) as (_ & _ & El & E).
+    unfold receiver_part. inversion E as [[E1 E2 E3]]. rewrite E1, E2, E3, El. reflexivity.
+  - apply gift_ready_rinv; exact I.
 Qed.
 
 Lemma run_from_rinv ops : forall s, RInv s -> RInv (fold_left step ops s).
@@ -916,15 +944,78 @@ Ltac zb := repeat match goal with
   | |- context [Z.ltb ?a ?b] => destruct (Z.ltb_spec a b); try lia
   end.
 
-Lemma live_init n : 1 <= n -> live n (gnet_init n).
-Proof.
-  intros H. unfold live, gnet_init, and_init, and_init_full, args_close_has_all, args_close_dl_len.
-  cbn [g_nunref g_has_all g_r1 g_f1 g_r2 g_f2 g_out g_left].
-  repeat split; try lia; zb; cbn [negb fst snd] in *; try reflexivity; try lia.
-Qed.
-
 Ltac crunch := repeat (first [progress zb | progress cbn [negb andb orb fst snd g_nunref g_has_all g_r1 g_f1 g_r2 g_f2 g_out g_left pred] in *]);
   repeat split; try reflexivity; try lia.
+
+Lemma and_feed_sticky pre : forall st r0, snd st = Some r0 -> snd (fold_left and_feed pre st) = Some r0.
+Proof.
+  induction pre as [|x pre IH]; intros st r0 H; cbn [fold_left]; [exact H|]. apply IH.
+  unfold and_feed, and_apply. destruct (and_cb _ _ _) as [[r f] o]. cbn [snd]. rewrite H. reflexivity.
+Qed.
+
+Lemma and_feed_true pre : forall r, forallb (fun b => b) pre = true -> (Z.of_nat (List.length pre) < r)%Z ->
+  fold_left and_feed pre ((r, false), None) = ((r - Z.of_nat (List.length pre))%Z, false, None).
+Proof.
+  induction pre as [|x pre IH]; intros r A L; cbn [fold_left List.length].
+  - f_equal. f_equal. cbn. lia.
+  - cbn [forallb] in A. apply andb_true_iff in A as [-> A]. cbn [List.length] in L.
+    assert (E : and_feed (r, false, None) true = ((r - 1)%Z, false, None)).
+    { unfold and_feed, and_apply, and_cb. cbn [fst snd]. crunch. }
+    rewrite E, IH by (try exact A; lia). f_equal. f_equal. lia.
+Qed.
+
+Lemma and_feed_exact pre : forall r, forallb (fun b => b) pre = true -> pre <> [] -> r = Z.of_nat (List.length pre) ->
+  snd (fold_left and_feed pre ((r, false), None)) = Some true.
+Proof.
+  induction pre as [|x pre IH]; intros r A N L; [congruence|]. cbn [fold_left List.length] in *.
+  cbn [forallb] in A. apply andb_true_iff in A as [-> A].
+  destruct pre as [|y pre].
+  - cbn [fold_left]. subst r. unfold and_feed, and_apply, and_cb. cbn [fst snd List.length]. crunch.
+  - assert (E : and_feed (r, false, None) true = ((r - 1)%Z, false, None)).
+    { unfold and_feed, and_apply, and_cb. cbn [fst snd]. cbn [List.length] in L. crunch. }
+    rewrite E. apply IH; [exact A | discriminate | cbn [List.length] in *; lia].
+Qed.
+
+Lemma and_feed_false pre : forall r, forallb (fun b => b) pre = false -> (Z.of_nat (List.length pre) <= r)%Z ->
+  snd (fold_left and_feed pre ((r, false), None)) = Some false.
+Proof.
+  induction pre as [|x pre IH]; intros r A L; [discriminate A|]. cbn [fold_left List.length forallb] in *.
+  destruct x; cbn [andb] in A.
+  - assert (Hp : pre <> []) by (intros ->; discriminate A).
+    assert (E : and_feed (r, false, None) true = ((r - 1)%Z, false, None)).
+    { unfold and_feed, and_apply, and_cb. cbn [fst snd]. destruct pre; [congruence|]. cbn [List.length] in L. crunch. }
+    rewrite E. apply IH; [exact A | lia].
+  - apply and_feed_sticky. unfold and_feed, and_apply, and_cb. cbn [fst snd]. crunch.
+Qed.
+
+Definition all_ok (l : list bool) : bool := forallb (fun b => b) l.
+
+(* the network right after receiveClose, when `pre` references resolved early and m are unresolved *)
+Lemma close_spec pre m : 1 <= List.length pre + m ->
+  (all_ok pre = false -> g_out (gnet_close pre m) = Some false) /\
+  (all_ok pre = true -> m = 0 -> g_out (gnet_close pre m) = Some true) /\
+  (all_ok pre = true -> 1 <= m -> live m (gnet_close pre m)).
+Proof.
+  intros H. unfold all_ok, gnet_close, and_init, and_init_full, args_close_has_all, args_close_dl_len.
+  cbn [g_nunref g_has_all g_r1 g_f1 g_r2 g_f2 g_out g_left].
+  assert (R : forall r0 : Z, (0 < r0)%Z -> fst (if negb (negb (r0 =? 0)%Z) then (0%Z, false, Some true) else (r0, false, @None bool)) = (r0, false)).
+  { intros r0 Hr. destruct (Z.eqb_spec r0 0); [lia|]. reflexivity. }
+  set (r := ((if negb (Z.of_nat m =? 0)%Z then 1 else 0) + Z.of_nat (List.length pre + m))%Z).
+  assert (Hr : (0 < r)%Z) by (subst r; destruct (negb _); lia).
+  rewrite (R r Hr), (R 1%Z) by lia.
+  split; [|split].
+  - intros A. rewrite (and_feed_false pre r A) by (subst r; destruct (negb _); lia).
+    unfold and_apply, and_cb. cbn [fst snd]. crunch.
+  - intros A ->. rewrite (and_feed_exact pre r A); [unfold and_apply, and_cb; cbn [fst snd]; crunch | |].
+    + intros ->. cbn in H. lia.
+    + subst r. cbn. rewrite Nat.add_0_r. reflexivity.
+  - intros A Hm. rewrite (and_feed_true pre r A) by (subst r; destruct (Z.eqb_spec (Z.of_nat m) 0); cbn [negb]; lia).
+    cbn [fst snd]. unfold live. cbn [g_nunref g_has_all g_r1 g_f1 g_r2 g_f2 g_out g_left].
+    subst r. destruct (Z.eqb_spec (Z.of_nat m) 0); [lia|]. cbn [negb]. repeat split; try lia.
+Qed.
+
+Lemma live_init n : 1 <= n -> live n (gnet_init n).
+Proof. intros H. apply (close_spec [] n); [cbn; lia | reflexivity | exact H]. Qed.
 
 Ltac fire_unfold :=
   unfold gift_fire, update_child, update_child_full, and_apply, and_cb;
@@ -976,6 +1067,20 @@ Proof.
     + apply gifts_run_out_stable. apply (fire_false m g L).
 Qed.
 
+(* the same when some of the references resolved or failed EARLY, while the call was still being received: `pre` are the
+   early results, m references are unresolved when the call is complete, rs are the results of the first |rs| of those *)
+Theorem gifts_any_time pre m rs : 1 <= List.length pre + m -> List.length rs <= m ->
+  g_out (gifts_run rs (gnet_close pre m)) =
+    if all_ok (pre ++ rs) then (if List.length rs =? m then Some true else None) else Some false.
+Proof.
+  intros H Hl. destruct (close_spec pre m H) as (Hf & Ht & Hlive). unfold all_ok in *. rewrite forallb_app.
+  destruct (forallb (fun b => b) pre) eqn:Ea; cbn [andb].
+  - destruct m as [|m].
+    + destruct rs; [|cbn in Hl; lia]. cbn [gifts_run forallb List.length Nat.eqb]. apply Ht; reflexivity.
+    + apply gifts_all_or_first_failure; [apply Hlive; [reflexivity|lia] | exact Hl].
+  - apply gifts_run_out_stable. apply Hf. reflexivity.
+Qed.
+
 Lemma fire_none_live ok m g : live m g -> g_out (gift_fire ok g) = None -> exists m', live m' (gift_fire ok g).
 Proof.
   intros L H. destruct ok.
@@ -1009,9 +1114,9 @@ Proof.
   induction batch as [|t b IH]; intros s I; cbn [fold_left]; [exact I|]. apply IH. destruct t; apply do_next_ginv, I.
 Qed.
 
-Lemma gift_ready_ginv k ok s : GInv s -> GInv (gift_ready k ok s).
+Lemma gift_ready_ginv a k ok s : GInv s -> GInv (gift_ready_gen a k ok s).
 Proof.
-  intros [Iw Iq]. unfold gift_ready. set (ok' := ok && _).
+  intros [Iw Iq]. unfold gift_ready_gen. set (ok' := ok && _).
   destruct (find _ (waiting s)) as [[c g]|] eqn:Ef.
   - apply find_some in Ef. destruct Ef as [Hin _]. destruct (Iw _ _ Hin) as [m L].
     destruct (g_out (gift_fire ok' g)) eqn:Eo.
@@ -1037,17 +1142,30 @@ Proof.
     match goal with |- context [if ?b then _ else _] => destruct b end; rewrite ?pump_receiver; reflexivity.
   - apply (ginv_of_receiver s); [|exact I]. unfold release.
     destruct (cur s) as [[c [|[|m]]]|]; rewrite ?pump_receiver; reflexivity.
-  - unfold deliver. destruct (lost s); [exact I|]. destruct (wire s) as [|c w]; [exact I|].
+  - unfold deliver. destruct (lost s); [exact I|]. destruct (negb (in_flight s)); [exact I|]. destruct (wire s) as [|c w]; [exact I|].
     destruct I as [Iw Iq].
-    destruct (cfate c) as [|n| |] eqn:Ef; try (split; [exact Iw | exact Iq]);
+    assert (Hnew : forall g0, rdy_on_arrival c (early s) = Pending g0 -> exists m, live m g0).
+    { unfold rdy_on_arrival. destruct (cfate c) as [|[|n]| |]; try discriminate.
+      set (pre := firstn (S n) (early_of (cid c) (early s))).
+      assert (Hl : List.length pre <= S n) by (subst pre; apply firstn_le_length).
+      set (mm := S n - List.length pre). assert (Hmm : 1 <= List.length pre + mm) by (subst mm; lia). clearbody mm.
+      intros g0 H. destruct (g_out (gnet_close pre mm)) as [[|]|] eqn:Eo; inversion H; subst g0.
+      destruct (close_spec pre mm Hmm) as (Hf & Ht & Hlive).
+      destruct (all_ok pre) eqn:Ea; [|rewrite (Hf eq_refl) in Eo; discriminate Eo].
+      destruct mm as [|m]; [rewrite (Ht eq_refl eq_refl) in Eo; discriminate Eo|].
+      eexists. apply Hlive; [reflexivity | lia]. }
+    destruct (cfate c) eqn:Ef; try (split; [exact Iw | exact Iq]);
       (split; cbn [waiting inq]; [exact Iw|]); rewrite inq_put; intros c0 g0 H; apply in_app_or in H;
-      (destruct H as [H|[H|[]]]; [eapply Iq; exact H|]); try discriminate H.
-    destruct n; cbn [rdy_on_arrival] in H; [discriminate H|]. inversion H; subst.
-    eexists. apply live_init. lia.
+      (destruct H as [H|[H|[]]]; [eapply Iq; exact H|]); inversion H; subst; eapply Hnew; eassumption.
   - apply gift_ready_ginv, I.
   - unfold turn. apply thunks_ginv. exact I.
   - unfold disconnect. destruct (lost s); [exact I|]. destruct I as [Iw Iq].
     destruct finish_clears_inq; (split; cbn [waiting inq]; [exact Iw|]); [intros c g []|exact Iq].
+  - apply (ginv_of_receiver s); [|exact I]. destruct (early_gift_parts k ok s) as (_ & _ & El & _ & E).
+    unfold receiver_part. inversion E as [[E1 E2 E3]]. rewrite E1, E2, E3, El. reflexivity.
+  - apply (ginv_of_receiver s); [|exact I]. destruct (sender_lost_parts s) as (_ & _ & El & E).
+    unfold receiver_part. inversion E as [[E1 E2 E3]]. rewrite E1, E2, E3, El. reflexivity.
+  - apply gift_ready_ginv, I.
 Qed.
 
 Lemma run_from_ginv ops : forall s, GInv s -> GInv (fold_left step ops s).
@@ -1058,7 +1176,11 @@ Proof. split; intros c g []. Qed.
 
 (* the ops that settle a state keep the connection *)
 Definition settle_op (o : op) : Prop :=
-  match o with Issue _ _ => False | GiftReady _ false => False | Disconnect => False | _ => True end.
+  match o with
+  | Issue _ _ => False | GiftReady _ false => False | Disconnect => False
+  | EarlyGift _ _ => False | SenderLost => False | GiftReady0 _ _ => False
+  | _ => True
+  end.
 
 Lemma thunks_lost batch : forall s, lost (fold_left run_thunk batch s) = lost s.
 Proof.
@@ -1074,9 +1196,40 @@ Lemma settle_step_lost s o : settle_op o -> lost (step s o) = lost s.
 Proof.
   destruct o; cbn [settle_op step]; intros H; try destruct H.
   - unfold release. destruct (cur s) as [[c [|[|m]]]|]; rewrite ?pump_lost; reflexivity.
-  - unfold deliver. destruct (lost s) eqn:El; [exact El|]. destruct (wire s); [exact El|]. destruct (cfate c); reflexivity.
-  - apply gift_ready_parts.
+  - unfold deliver. destruct (lost s) eqn:El; [exact El|]. destruct (negb (in_flight s)); [exact El|].
+    destruct (wire s); [exact El|]. destruct (cfate c); reflexivity.
+  - apply (gift_ready_parts true).
   - unfold turn. rewrite thunks_lost. reflexivity.
+Qed.
+
+Lemma thunks_cut batch : forall s, cut (fold_left run_thunk batch s) = cut s.
+Proof.
+  induction batch as [|t b IH]; intros s; cbn [fold_left]; [reflexivity|]. rewrite IH. destruct t; cbn [run_thunk].
+  unfold do_next. destruct (checks_disconnected && lost s); [reflexivity|]. destruct (blocked s); [reflexivity|].
+  destruct (q_take inq_pop (inq s)) as [[[c r] rest]|]; [|reflexivity]. destruct r; reflexivity.
+Qed.
+
+Lemma pump_cut f : forall s, cut (pump f s) = cut s.
+Proof.
+  induction f as [|f IH]; intros s; cbn [pump]; [reflexivity|].
+  destruct (cur s); [reflexivity|]. destruct (q_take sendq_pop (sendq s)) as [[c rest]|]; [|reflexivity].
+  destruct (stalls c); [rewrite IH|]; reflexivity.
+Qed.
+
+Lemma settle_step_uncut s o : settle_op o -> cut s = None -> cut (step s o) = None.
+Proof.
+  destruct o; cbn [settle_op step]; intros H Ec; try destruct H.
+  - unfold release. destruct (cur s) as [[c [|[|m]]]|]; rewrite ?pump_cut; exact Ec.
+  - unfold deliver. destruct (lost s); [exact Ec|]. destruct (negb (in_flight s)); [exact Ec|].
+    destruct (wire s); [exact Ec|]. destruct (cfate c); cbn [cut]; unfold cut_pred; rewrite Ec; reflexivity.
+  - destruct (gift_ready_parts true k ok s) as (_ & _ & _ & E). unfold gift_ready. rewrite E. exact Ec.
+  - unfold turn. rewrite thunks_cut. exact Ec.
+Qed.
+
+Lemma settle_run_uncut more : forall s, Forall settle_op more -> cut s = None -> cut (fold_left step more s) = None.
+Proof.
+  induction more as [|o more IH]; intros s H Ec; cbn [fold_left]; [exact Ec|].
+  inversion H; subst. apply IH; [assumption|]. apply settle_step_uncut; assumption.
 Qed.
 
 Lemma settle_run_lost more : forall s, Forall settle_op more -> lost (fold_left step more s) = lost s.
@@ -1085,23 +1238,24 @@ Proof.
   inversion H; subst. rewrite IH; [apply settle_step_lost|]; assumption.
 Qed.
 
-Lemma deliver_sender s : lost s = false ->
+Lemma deliver_sender s : lost s = false -> cut s = None ->
   cur (deliver s) = cur s /\ sendq (deliver s) = sendq s /\ wire (deliver s) = tl (wire s).
 Proof.
-  intros El. unfold deliver. rewrite El. destruct (wire s) as [|c0 w] eqn:Ew.
+  intros El Ec. unfold deliver, in_flight. rewrite El, Ec. cbn [negb]. destruct (wire s) as [|c0 w] eqn:Ew.
   - rewrite Ew. repeat split; reflexivity.
   - destruct (cfate c0); cbn [cur sendq wire tl]; repeat split; reflexivity.
 Qed.
 
-Lemma drain_wire : forall n s, lost s = false -> List.length (wire s) <= n -> cur s = None -> sendq s = [] ->
+Lemma drain_wire : forall n s, lost s = false -> cut s = None -> List.length (wire s) <= n -> cur s = None -> sendq s = [] ->
   exists k, let s' := fold_left step (repeat Deliver k) s in cur s' = None /\ sendq s' = [] /\ wire s' = [].
 Proof.
-  induction n as [|n IH]; intros s El Hl Hc Hq.
+  induction n as [|n IH]; intros s El Ec Hl Hc Hq.
   - exists 0. cbn. destruct (wire s); [auto | cbn in Hl; lia].
   - destruct (wire s) as [|c w] eqn:Ew; [exists 0; cbn; auto|].
-    destruct (deliver_sender s El) as (E1 & E2 & E3).
+    destruct (deliver_sender s El Ec) as (E1 & E2 & E3).
     destruct (IH (deliver s)) as [k Hk];
-      [exact (eq_trans (settle_step_lost s Deliver Logic.I) El) | rewrite E3, Ew; cbn in *; lia | congruence | congruence |].
+      [exact (eq_trans (settle_step_lost s Deliver Logic.I) El) | exact (settle_step_uncut s Deliver Logic.I Ec)
+       | rewrite E3, Ew; cbn in *; lia | congruence | congruence |].
     exists (S k). cbn [repeat fold_left step]. exact Hk.
 Qed.
 
@@ -1153,7 +1307,7 @@ Proof.
   intros El Ew Hi He. unfold turn. destruct evq_is_fifo as [_ ->].
   destruct (evq s) as [|t b]; [congruence|]. cbn [fold_left]. destruct t; cbn [run_thunk].
   eapply Nat.le_lt_trans; [apply thunks_measure|].
-  set (s0 := mk _ _ _ _ _ _ _ _ _ _).
+  set (s0 := mk _ _ _ _ _ _ _ _ _ _ _ _).
   assert (E : rmeasure s = rmeasure s0) by reflexivity. rewrite E.
   apply do_next_measure_strict; subst s0; cbn [waiting inq lost]; assumption.
 Qed.
@@ -1161,7 +1315,7 @@ Qed.
 Lemma gift_measure s x g m : lost s = false -> waiting s = [(x, g)] -> live m g ->
   rmeasure (gift_ready (cid x) true s) < rmeasure s.
 Proof.
-  intros El Ew L. unfold gift_ready. rewrite Ew, El, andb_false_r. cbn [find fst negb andb]. rewrite Nat.eqb_refl.
+  intros El Ew L. unfold gift_ready, gift_ready_gen. rewrite Ew, El. cbn [andb negb]. rewrite ?andb_true_r. cbn [find fst negb andb]. rewrite Nat.eqb_refl.
   destruct m as [|[|m]]; [destruct L; lia | |].
   - destruct (fire_true_last g L) as [-> _]. cbn [filter fst negb]. rewrite Nat.eqb_refl. cbn [negb].
     unfold rmeasure, finish_call. cbn [inq waiting]. rewrite Ew. unfold list_sum. cbn [map fold_right]. lia.
@@ -1206,16 +1360,18 @@ Qed.
 Lemma forall_repeat {A} (P : A -> Prop) x k : P x -> Forall P (repeat x k).
 Proof. intros H. induction k; cbn [repeat]; constructor; assumption. Qed.
 
-Theorem can_always_settle ops : lost (run ops) = false ->
+Theorem can_always_settle ops : lost (run ops) = false -> cut (run ops) = None ->
   exists more, Forall settle_op more /\ pipeline (run (ops ++ more)) = [].
 Proof.
-  intros El. pose (s0 := run ops).
+  intros El Ec. pose (s0 := run ops).
   destruct (drain_sender (smeasure s0) s0 (le_n _)) as [k1 [Hc1 Hq1]].
   { apply (run_from_sinv ops init). intros _; reflexivity. }
   set (s1 := fold_left step (repeat StallRelease k1) s0) in *.
   assert (El1 : lost s1 = false).
   { subst s1. rewrite settle_run_lost; [exact El | apply forall_repeat; exact I]. }
-  destruct (drain_wire (List.length (wire s1)) s1 El1 (le_n _) Hc1 Hq1) as [k2 (Hc2 & Hq2 & Hw2)].
+  assert (Ec1 : cut s1 = None).
+  { subst s1. apply settle_run_uncut; [apply forall_repeat; exact I | exact Ec]. }
+  destruct (drain_wire (List.length (wire s1)) s1 El1 Ec1 (le_n _) Hc1 Hq1) as [k2 (Hc2 & Hq2 & Hw2)].
   set (s2 := fold_left step (repeat Deliver k2) s1) in *.
   assert (El2 : lost s2 = false).
   { subst s2. rewrite settle_run_lost; [exact El1 | apply forall_repeat; exact I]. }
@@ -1237,13 +1393,13 @@ Lemma count_issues_app a b : count_issues (a ++ b) = count_issues a + count_issu
 Proof. unfold count_issues. rewrite filter_app, app_length. reflexivity. Qed.
 
 (* every issued call can still be brought to a conclusion: entered, or explicitly refused *)
-Theorem eventually_entered_or_refused ops : lost (run ops) = false ->
+Theorem eventually_entered_or_refused ops : lost (run ops) = false -> cut (run ops) = None ->
   exists more, Forall settle_op more /\
     forall c, c < count_issues ops ->
       In c (entered (run (ops ++ more))) \/ In (Failed c) (history (run (ops ++ more))) \/
       In (Rejected c) (history (run (ops ++ more))).
 Proof.
-  intros El. destruct (can_always_settle ops El) as (more & Hf & Hp). exists more. split; [exact Hf|].
+  intros El Ec. destruct (can_always_settle ops El Ec) as (more & Hf & Hp). exists more. split; [exact Hf|].
   intros c Hc.
   assert (Ed : dropped (run (ops ++ more)) = []).
   { apply dropped_only_after_loss. unfold run. rewrite fold_left_app. rewrite settle_run_lost; assumption. }
@@ -1278,32 +1434,66 @@ Proof.
   - unfold issue. match goal with |- context [if ?b then _ else _] => destruct b end; rewrite ?pump_lost; exact El.
   - unfold release. destruct (cur s) as [[c [|[|m]]]|]; rewrite ?pump_lost; exact El.
   - unfold deliver. rewrite El. exact El.
-  - destruct (gift_ready_parts k ok s) as (_ & _ & ->). exact El.
+  - destruct (gift_ready_parts true k ok s) as (_ & _ & E & _). unfold gift_ready. rewrite E. exact El.
   - unfold turn. rewrite thunks_lost. exact El.
   - unfold disconnect. rewrite El. exact El.
+  - destruct (early_gift_parts k ok s) as (_ & _ & -> & _). exact El.
+  - destruct (sender_lost_parts s) as (_ & _ & -> & _). exact El.
+  - destruct (gift_ready_parts false k ok s) as (_ & _ & -> & _). exact El.
 Qed.
 
-Lemma step_lost_entered s o : GInv s -> lost s = true -> entered (step s o) = entered s.
+(* every op except the successful resolution of a reference that the PEER sent with giftID 0 *)
+Definition acked_op (o : op) : Prop := match o with GiftReady0 _ true => False | _ => True end.
+
+Lemma gift_failed_after_loss a k s : GInv s -> lost s = true ->
+  entered (gift_ready_gen a k false s) = entered s.
 Proof.
-  intros G El. unfold entered. destruct o; cbn [step].
-  - unfold issue. match goal with |- context [if ?b then _ else _] => destruct b end; rewrite ?pump_trace; reflexivity.
-  - pose proof (release_abs s) as H. apply (f_equal a_trace) in H. cbn [abs a_trace] in H. rewrite H. reflexivity.
-  - unfold deliver. rewrite El. reflexivity.
-  - unfold gift_ready. rewrite gift_after_loss_fails, El. cbn [andb negb]. rewrite andb_false_r.
-    destruct (find _ (waiting s)) as [[c g]|] eqn:Ef; [|reflexivity].
-    (* the resolution counts as a failure, and a live network answers a failure with a failure *)
-    apply find_some in Ef. destruct Ef as [Hin _]. destruct G as [Gw _]. destruct (Gw _ _ Hin) as [m L].
-    destruct (fire_false m g L) as [-> _]. unfold finish_call. cbn [trace andb entered_of]. reflexivity.
-  - unfold turn. apply (thunks_lost_entered _ (mk _ _ _ _ _ _ [] _ _ _)). exact El.
-  - unfold disconnect. rewrite El. reflexivity.
+  intros G El. unfold entered, gift_ready_gen. cbn [andb].
+  destruct (find _ (waiting s)) as [[c g]|] eqn:Ef; [|reflexivity].
+  apply find_some in Ef. destruct Ef as [Hin _]. destruct G as [Gw _]. destruct (Gw _ _ Hin) as [m L].
+  destruct (fire_false m g L) as [-> _]. unfold finish_call. cbn [trace andb entered_of]. reflexivity.
 Qed.
 
-Theorem nothing_entered_after_loss ops more : lost (run ops) = true -> entered (run (ops ++ more)) = entered (run ops).
+Lemma step_lost_entered s o : GInv s -> lost s = true -> acked_op o \/ docall_checks_disconnected = true ->
+  entered (step s o) = entered s.
+Proof.
+  intros G El Ho. destruct o; cbn [step].
+  - unfold entered, issue. match goal with |- context [if ?b then _ else _] => destruct b end; rewrite ?pump_trace; reflexivity.
+  - unfold entered. pose proof (release_abs s) as H. apply (f_equal a_trace) in H. cbn [abs a_trace] in H. rewrite H. reflexivity.
+  - unfold deliver. rewrite El. reflexivity.
+  - (* the resolution counts as a failure, and a live network answers a failure with a failure *)
+    rewrite <- (gift_failed_after_loss true k s G El). unfold gift_ready, gift_ready_gen.
+    rewrite gift_after_loss_fails, El. cbn [andb orb negb]. rewrite andb_false_r. reflexivity.
+  - unfold entered, turn. apply (thunks_lost_entered _ (mk _ _ _ _ _ _ [] _ _ _ _ _)). exact El.
+  - unfold disconnect. rewrite El. reflexivity.
+  - destruct (early_gift_parts k ok s) as (E & _). apply (f_equal a_trace) in E. unfold entered. cbn [abs a_trace] in E. rewrite E. reflexivity.
+  - destruct (sender_lost_parts s) as (E & _). apply (f_equal a_trace) in E. unfold entered. cbn [abs a_trace] in E. rewrite E. reflexivity.
+  - destruct ok; [|apply gift_failed_after_loss; assumption]. destruct Ho as [[]|Hd].
+    rewrite <- (gift_failed_after_loss false k s G El). unfold gift_ready_gen.
+    rewrite Hd, El. cbn [andb negb]. rewrite orb_true_r. reflexivity.
+Qed.
+
+Theorem nothing_entered_after_loss ops more : lost (run ops) = true ->
+  Forall acked_op more \/ docall_checks_disconnected = true ->
+  entered (run (ops ++ more)) = entered (run ops).
 Proof.
   unfold run. rewrite fold_left_app. generalize (run_from_ginv ops init GInv_init). generalize (fold_left step ops init). clear ops.
   intros s G. revert s G.
-  induction more as [|o more IH]; intros s G El; cbn [fold_left]; [reflexivity|].
-  rewrite IH; [apply step_lost_entered; assumption | apply step_ginv, G | apply step_lost_stays, El].
+  induction more as [|o more IH]; intros s G El Hm; cbn [fold_left]; [reflexivity|].
+  assert (Ho : acked_op o \/ docall_checks_disconnected = true) by (destruct Hm as [Hm|Hd]; [inversion Hm; subst; left; assumption | right; exact Hd]).
+  assert (Hm' : Forall acked_op more \/ docall_checks_disconnected = true) by (destruct Hm as [Hm|Hd]; [inversion Hm; subst; left; assumption | right; exact Hd]).
+  rewrite IH; [apply step_lost_entered; assumption | apply step_ginv, G | apply step_lost_stays, El | exact Hm'].
+Qed.
+
+(* without that restriction the statement is FALSE: a peer that sends a third-party reference with giftID 0 gets its call
+   entered after the receiver has lost the connection (ackGift has nothing to send, so nothing fails) *)
+Definition giftid0_witness : list op := [Issue 0 (FGift 1); Deliver; Turn; Disconnect].
+
+Theorem nothing_entered_after_loss_refuted : docall_checks_disconnected = false ->
+  exists ops more, lost (run ops) = true /\ entered (run ops) = [] /\ entered (run (ops ++ more)) = [0].
+Proof.
+  intros H. first [ vm_compute in H; discriminate H
+                  | exists giftid0_witness, [GiftReady0 0 true]; vm_compute; repeat split; reflexivity ].
 Qed.
 
 Theorem loss_is_final ops more : lost (run ops) = true -> lost (run (ops ++ more)) = true.
@@ -1311,6 +1501,62 @@ Proof.
   unfold run. rewrite fold_left_app. generalize (fold_left step ops init). clear ops.
   induction more as [|o more IH]; intros s El; cbn [fold_left]; [exact El|]. apply IH, step_lost_stays, El.
 Qed.
+
+(* ------------------------------------------------------------------ *)
+(* the SENDER loses the connection: only what it had completely written can still arrive *)
+
+Definition is_arrival (e : event) : bool := match e with Queued _ | Rejected _ => true | _ => false end.
+Definition arrived (s : state) : nat := List.length (filter is_arrival (trace s)).
+Definition budget (s : state) : nat := match cut s with Some k => k | None => 0 end.
+
+Lemma do_next_arrived s : arrived (do_next s) = arrived s.
+Proof.
+  unfold do_next. destruct (checks_disconnected && lost s); [reflexivity|]. destruct (blocked s); [reflexivity|].
+  destruct (q_take inq_pop (inq s)) as [[[c r] rest]|]; [|reflexivity].
+  destruct r; unfold arrived, finish_call; cbn [trace]; try reflexivity; destruct (_ && _); reflexivity.
+Qed.
+
+Lemma thunks_arrived batch : forall s, arrived (fold_left run_thunk batch s) = arrived s.
+Proof. induction batch as [|t b IH]; intros s; cbn [fold_left]; [reflexivity|]. rewrite IH. destruct t; apply do_next_arrived. Qed.
+
+Lemma gift_ready_arrived a k ok s : arrived (gift_ready_gen a k ok s) = arrived s.
+Proof.
+  unfold gift_ready_gen. destruct (find _ (waiting s)) as [[c g]|]; [|reflexivity].
+  destruct (g_out _); [|reflexivity]. unfold arrived, finish_call. cbn [trace]. destruct (_ && _); reflexivity.
+Qed.
+
+Lemma step_after_cut s o k : cut s = Some k ->
+  exists k', cut (step s o) = Some k' /\ arrived (step s o) + k' = arrived s + k.
+Proof.
+  intros Ec. destruct o; cbn [step].
+  - exists k. unfold issue. match goal with |- context [if ?b then _ else _] => destruct b end;
+      rewrite ?pump_cut; unfold arrived; rewrite ?pump_trace; cbn [cut trace]; auto.
+  - exists k. pose proof (release_abs s) as H. apply (f_equal a_trace) in H. cbn [abs a_trace] in H. unfold arrived. rewrite H.
+    split; [|reflexivity]. unfold release. destruct (cur s) as [[c [|[|m]]]|]; rewrite ?pump_cut; exact Ec.
+  - unfold deliver, in_flight, cut_pred. rewrite Ec. destruct (lost s); [exists k; auto|].
+    destruct k as [|k]; cbn [negb]; [exists 0; auto|]. destruct (wire s) as [|c w]; [exists (S k); auto|].
+    exists k. destruct (cfate c); unfold arrived; cbn [cut trace filter is_arrival List.length pred]; split; try reflexivity; lia.
+  - exists k. destruct (gift_ready_parts true k0 ok s) as (_ & _ & _ & E). unfold gift_ready. rewrite E, gift_ready_arrived. auto.
+  - exists k. unfold turn. rewrite thunks_cut, thunks_arrived. auto.
+  - exists k. unfold disconnect. destruct (lost s); [auto|]. destruct finish_clears_inq; auto.
+  - exists k. destruct (early_gift_parts k0 ok s) as (E & _ & _ & Ec' & _). apply (f_equal a_trace) in E. cbn [abs a_trace] in E.
+    unfold arrived. rewrite E, Ec'. auto.
+  - exists k. unfold sender_lost. rewrite Ec. auto.
+  - exists k. destruct (gift_ready_parts false k0 ok s) as (_ & _ & _ & E). rewrite E, gift_ready_arrived. auto.
+Qed.
+
+(* after the sender's loss, at most as many calls arrive (are queued or rejected) as were completely on the wire then,
+   whatever happens next: what the sender serializes afterwards is never received *)
+Theorem after_sender_loss_only_in_flight_arrive ops more k : cut (run ops) = Some k ->
+  arrived (run (ops ++ more)) <= arrived (run ops) + k.
+Proof.
+  unfold run. rewrite fold_left_app. generalize (fold_left step ops init). clear ops. revert k.
+  induction more as [|o more IH]; intros k s Ec; cbn [fold_left]; [lia|].
+  destruct (step_after_cut s o k Ec) as (k' & Ec' & E). specialize (IH k' _ Ec'). lia.
+Qed.
+
+Theorem sender_loss_cuts_at_wire ops : cut (run ops) = None -> cut (run (ops ++ [SenderLost])) = Some (List.length (wire (run ops))).
+Proof. intros Ec. rewrite run_app_one. cbn [step]. unfold sender_lost. rewrite Ec. reflexivity. Qed.
 
 (* ------------------------------------------------------------------ *)
 (* LocalReferenceable: order is given by the eventual queue alone *)
@@ -1424,6 +1670,29 @@ Proof. vm_compute. reflexivity. Qed.
 Example loss_example_after :
   history (run (loss_example ++ [GiftReady 1 true; Turn; Deliver; Turn; Turn])) =
   [Queued 0; Queued 1; Queued 2; Queued 3; Entered 0; Failed 1].
+Proof. vm_compute. reflexivity. Qed.
+
+(* a reference that resolves while its call is still on the wire: the call is ready on arrival; one that fails early
+   makes the call fail when its turn comes; with two references, one early and one late, the call waits for the late one *)
+Example early_gift_example :
+  map (fun ops => history (run ops))
+      [ [Issue 0 (FGift 1); EarlyGift 0 true; Deliver; Turn];
+        [Issue 0 (FGift 1); EarlyGift 0 false; Deliver; Turn];
+        [Issue 0 (FGift 2); EarlyGift 0 true; Deliver; Turn; Turn; GiftReady 0 true; Turn] ] =
+  [ [Queued 0; Entered 0]; [Queued 0; Failed 0]; [Queued 0; Entered 0] ].
+Proof. vm_compute. reflexivity. Qed.
+
+Example any_time_example : 1 <= List.length [true] + 2 /\ List.length [true] <= 2.
+Proof. cbn; lia. Qed.
+
+(* the sender is cut off with call 0 completely written, call 1 paused in a streaming argument and call 2 queued: only
+   call 0 can still arrive, although 1 and 2 are serialized afterwards *)
+Definition sender_loss_example : list op :=
+  [Issue 0 FPlain; Issue 1 FPlain; Issue 0 FPlain; SenderLost; StallRelease; Deliver; Deliver; Deliver; Turn; Turn].
+
+Example sender_loss_example_state :
+  (cut (run [Issue 0 FPlain; Issue 1 FPlain; Issue 0 FPlain; SenderLost]), entered (run sender_loss_example),
+   ids (wire (run sender_loss_example))) = (Some 1, [0], [1; 2]).
 Proof. vm_compute. reflexivity. Qed.
 
 Example settle_example : lost (run hol_example) = false.
